@@ -40,21 +40,20 @@ Proof.
   now rewrite N.eqb_refl, forallb_rev, H.
 Qed.
 
-Lemma comment_ok_intro body :
-  forallb (fun x => negb (N.eqb x cLF)) body = true ->
-  comment_ok (cSEMI :: body ++ [cLF]) = true.
+Lemma comment_ok_intro body z : is_lb z = true ->
+  forallb (fun x => negb (is_lb x)) body = true ->
+  comment_ok (cSEMI :: body ++ [z]) = true.
 Proof.
-  intros H. unfold comment_ok. rewrite N.eqb_refl, rev_app_distr. cbn [rev app].
-  now rewrite N.eqb_refl, forallb_rev, H.
+  intros Hz H. unfold comment_ok. rewrite N.eqb_refl, rev_app_distr. cbn [rev app].
+  now rewrite Hz, forallb_rev, H.
 Qed.
 
-Lemma atom_ok_lib_snoc t c : atom_ok_lib t = true -> atom_char_tl c = true ->
+Lemma atom_ok_lib_snoc t c : atom_ok_lib t = true -> atom_char c = true ->
   atom_ok_lib (t ++ [c]) = true.
 Proof.
-  destruct t as [|a tl]; [discriminate|]. cbn [app atom_ok_lib].
-  intros H Hc. apply andb_true_iff in H. destruct H as [Ha Htl].
-  apply andb_true_intro. split; [assumption|].
-  rewrite forallb_app. apply andb_true_intro. split; [assumption|].
+  destruct t as [|a tl]; [discriminate|]. unfold atom_ok_lib, atom_ok. cbn [app].
+  intros H Hc. change (a :: tl ++ [c]) with ((a :: tl) ++ [c]).
+  rewrite forallb_app. apply andb_true_intro. split; [exact H|].
   cbn [forallb]. now rewrite Hc.
 Qed.
 
@@ -79,7 +78,7 @@ Definition mode_ok (m : mode) : Prop :=
                    forallb (fun x => negb (N.eqb x cBAR)) body = true)
   | MLitQ acc => exists body, rev acc = cDQ :: body ++ [cDQ] /\ strbody_ok body = true
   | MCom acc => exists body, rev acc = cSEMI :: body /\
-                  forallb (fun x => negb (N.eqb x cLF)) body = true
+                  forallb (fun x => negb (is_lb x)) body = true
   end.
 
 Definition inv (s : st) : Prop :=
@@ -129,7 +128,7 @@ Proof.
   destruct (is_ws c) eqn:Hws.
   { repeat split; assumption. }
   repeat split; try assumption.
-  cbn [md mode_ok rev app atom_ok_lib forallb]. rewrite andb_true_r.
+  cbn [md mode_ok rev app]. unfold atom_ok_lib, atom_ok. cbn [forallb]. rewrite andb_true_r.
   unfold atom_char, is_brk. now rewrite Hws, Hlp, Hrp, Hsemi, Hdq, Hbar.
 Qed.
 
@@ -141,12 +140,12 @@ Proof.
   - cbn [mode_ok] in Hm.
     destruct (is_ws c) eqn:Hws.
     { apply inv_emit; try assumption. now apply leaf_ok_atom. }
-    destruct (is_brk c) eqn:Hbrk.
+    destruct (is_brk c || N.eqb c cDQ || N.eqb c cBAR) eqn:Hbrk.
     { apply inv_step_top; [|apply md_emit].
       apply inv_emit; try assumption. now apply leaf_ok_atom. }
     repeat split; try assumption.
     cbn [md mode_ok rev]. apply atom_ok_lib_snoc; [assumption|].
-    unfold atom_char_tl. now rewrite Hws, Hbrk.
+    unfold atom_char. rewrite Hws. cbn [orb]. now rewrite Hbrk.
   - cbn [mode_ok] in Hm.
     destruct (N.eqb c q) eqn:Hcq.
     + apply N.eqb_eq in Hcq. subst c.
@@ -181,9 +180,8 @@ Proof.
       cbn [wf]. try unfold char in *; rewrite Er. apply leaf_ok_strlit.
       now apply (strlit_ok_intro body).
   - cbn [mode_ok] in Hm. destruct Hm as (body & Er & Hb).
-    destruct (N.eqb c cLF) eqn:Hc.
-    + apply N.eqb_eq in Hc. subst c.
-      apply inv_emit; try assumption.
+    fold (is_lb c). destruct (is_lb c) eqn:Hc.
+    + apply inv_emit; try assumption.
       cbn [wf rev]. try unfold char in *; rewrite Er. apply leaf_ok_comment.
       now apply (comment_ok_intro body).
     + repeat split; try assumption.
